@@ -129,6 +129,8 @@ CLASS_PATTERNS = [
 def classify(name, desc, group):
     if desc.startswith('canary:'):
         return 'canary'
+    if 'undefined function should be unreachable' in desc:
+        return 'no-body'   # DFCC's marker for a callee that has neither a body nor a contract: a tool limit, not a verdict
     if '.assertion.' in name:
         if desc.startswith('G:'):
             return 'step-monitor'
@@ -212,6 +214,20 @@ def run_group(pid, specdir, g, scratch, tier, stack, want_trace=None):
         gi += ['--dfcc', harness, '--enforce-contract', g['enforce']]
         for r in g.get('replace', []):
             gi += ['--replace-call-with-contract', r]
+        # callees the unchanged code does not call but a changed one might (e.g. a trylock in place of a lock): replaced by their contract only
+        # when the woven source mentions them (DFCC refuses to replace a function that does not occur)
+        woven_txt = None
+        for r in g.get('replace_if_called', []):
+            if woven_txt is None:
+                woven_txt = ''
+                for root, _, files in os.walk(os.path.join(scratch, 'woven')):
+                    for fn_ in files:
+                        try:
+                            woven_txt += open(os.path.join(root, fn_)).read()
+                        except OSError:
+                            pass
+            if re.search(r'\b%s\s*\(' % re.escape(r), woven_txt):
+                gi += ['--replace-call-with-contract', r]
         gi += ['--apply-loop-contracts']
     else:
         for r in g.get('remove_bodies', []):
